@@ -1226,10 +1226,26 @@ impl<TokenIter: Iterator<Item = Result<Token>>> Parser<TokenIter> {
             DatumBody::Symbol(ident) => SyntaxTemplateBody::Identifier(ident),
             DatumBody::Primitive(p) => SyntaxTemplateBody::Primitive(p),
             DatumBody::Pair(list) => {
-                let elements = Self::collect_template_elements(list.into_iter())?
+                // keep the tail of a dotted template, e.g. (a . rest)
+                let mut proper = vec![];
+                let mut tail = None;
+                for item in list.into_pair_iter() {
+                    match item {
+                        PairIterItem::Proper(datum) => proper.push(datum),
+                        PairIterItem::Improper(datum) => tail = Some(datum),
+                    }
+                }
+                let mut elements = Self::collect_template_elements(proper.into_iter())?
                     .into_iter()
-                    .collect::<GenericPair<_>>();
-                SyntaxTemplateBody::Pair(Box::new(elements))
+                    .map(PairIterItem::Proper)
+                    .collect::<Vec<_>>();
+                if let Some(tail) = tail {
+                    elements.push(PairIterItem::Improper(SyntaxTemplateElement(
+                        Self::transform_template(tail)?,
+                        false,
+                    )));
+                }
+                SyntaxTemplateBody::Pair(Box::new(GenericPair::from_pair_iter(elements)?))
             }
             DatumBody::Vector(vec) => SyntaxTemplateBody::Vector(
                 Self::collect_template_elements(vec.into_iter())?
